@@ -594,6 +594,7 @@ IOStart(s0, req) ==
     [] req.sk = "stale" -> fail(s0, "STALE_STATEID")
     [] req.sk \in {"anon", "byp"} ->
          IF req.fh = -1 THEN fail(s0, "NOFILEHANDLE")
+         ELSE IF req.op = "SETATTR" /\ req.fh > 0 /\ ~LeafAlive(s0, req.fh) THEN fail(s0, "STALE")
          ELSE IF req.op = "SETATTR"
               THEN [s |-> s0, rep |-> OkRep, io |-> [kind |-> "plain", t |-> 0, c |-> 0, bits |-> {}, f |-> req.fh]]
          ELSE IF req.fh = 0 THEN fail(s0, "ISDIR")
